@@ -64,7 +64,8 @@ func (t *Segment) Value(buffer []byte) []byte {
 		result = append(result, buffer[t.Start:t.Stop]...)
 	}
 	if t.ForceNewline && len(result) > 0 && result[len(result)-1] != '\n' {
-		result = append(result, '\n')
+		// result may alias the caller's buffer (Padding == 0): never append in place
+		result = append(result[:len(result):len(result)], '\n')
 	}
 	return result
 }
